@@ -358,9 +358,17 @@ type dispatcherCompleteEvent struct {
 func (e dispatcherCompleteEvent) apply(s *state) {
 	infoHash := e.dispatcher.InfoHash()
 
+	ctrl, ok := s.torrentControls[infoHash]
+	if ok && ctrl.dispatcher != e.dispatcher {
+		// The dispatcher which completed was torn down in the meantime, and
+		// the torrent has since been added again with a new dispatcher. The
+		// clients waiting on the new dispatcher must not be notified, nor may
+		// its announces be ejected, on behalf of the old one.
+		s.log("dispatcher", e.dispatcher).Error("Completed dispatcher was replaced")
+		return
+	}
 	s.conns.ClearBlacklist(infoHash)
 	s.announceQueue.Eject(infoHash)
-	ctrl, ok := s.torrentControls[infoHash]
 	if !ok {
 		s.log("dispatcher", e.dispatcher).Error("Completed dispatcher not found")
 		return
